@@ -633,7 +633,7 @@ def c13_real_thread_batch(tier):
     n = 160 if tier == "quick" else 1500
     cases = []
     for i in range(n):
-        cases.append((rng.choice(["swiper", "copy"]), rng.choice([0, 1, 1]), rng.choice([7, 7, 8]), rng.randrange(0, 600)))
+        cases.append((rng.choice(["swiper", "copy"]), rng.choice([0, 1, 1]), rng.choice([7, 7, 7, 8, 8, 9]), rng.randrange(0, 600)))
 
     def one(c):
         gc, where, shape, pad = c
@@ -669,7 +669,7 @@ def c13(tier):
     n, vio = c13_real_thread_batch(tier)
     seen = set()
     for c, v in vio:
-        key = "bigframe:%s:%s" % ("thread" if c[1] else "main", v[0])
+        key = "bigframe:%s:%s%s" % ("thread" if c[1] else "main", "giant-frame:" if c[2] == 9 else "", v[0])
         if key in seen:
             continue
         seen.add(key)
@@ -685,7 +685,7 @@ def c13(tier):
         reported.append({"class": v[0], "detail": v[1], "replay": rp, "key": key})
     cov["evaluations"] += n
     cov["distinct_nontrivial"] += len(set(c for c, v in [(c, None) for c in []])) + (n - len(vio))
-    cov["real_thread_stack_batch"] = {"runs": n, "violations": len(vio), "what": "real executables (baseline generator) recursing with ~320 KiB / ~8 KiB frames on main and spawned threads, padding 0..599 small frames"}
+    cov["real_thread_stack_batch"] = {"runs": n, "violations": len(vio), "what": "real executables (baseline generator) recursing with ~2.3 MiB / ~320 KiB / ~8 KiB frames on main and spawned threads, padding 0..599 small frames"}
     cov["violations_reported"] = reported
     write_evidence("C13", tier, "exploration", cov, time.time() - t0, len(reported), ASSUME_B + ["the real-thread batch runs outside the simulator: single recursing thread, no schedule to control"])
     return exit_code
